@@ -6,6 +6,9 @@
       `Suite.get_injected_fixture_names()` (i.e. does `get_object_attributes` yield the attribute)?
     * `assignTable` — the same domain: does `Suite.inject_fixtures({"f": value})` make the attribute hold
       the value?
+    * `twiceTable` — the same domain, with a public attribute `zz = lcc.inject_fixture("f")` beside the
+      attribute (class body / module): do BOTH hold the value after `Suite.inject_fixtures` (D35: before the
+      repair only the last one in `dir()` order did)?
     * `keyTable` — `inject_fixture()`, `inject_fixture("")`, `inject_fixture("f")`: is the fixture named
       by the attribute's own name (`attr.fixture_name or attr_name`)?
   equal the model's `discovers` / `usesAttrName` (`Model/Inject.lean`).
@@ -21,6 +24,13 @@ theorem discovery_table_agrees : ∀ r ∈ discoveryTable, discovers r.1.1 r.1.2
 
 theorem assign_table_agrees : ∀ r ∈ assignTable, discovers r.1.1 r.1.2 = r.2 := by decide
 
+/-- the model's answer for `twiceTable`: the attribute and `zz`, both injecting `f` -/
+def twiceModel (sh : Shape) (pl : Place) : Bool :=
+  let l := assigned [⟨"a", sh, pl, some "f"⟩, ⟨"zz", .pub, if pl = .module then .module else .body, some "f"⟩]
+  decide ("a" ∈ l) && decide ("zz" ∈ l)
+
+theorem twice_table_agrees : ∀ r ∈ twiceTable, twiceModel r.1.1 r.1.2 = r.2 := by decide
+
 theorem key_table_agrees : ∀ r ∈ keyTable, usesAttrName r.1 = r.2 := by decide
 
 /-- the extracted tables cover the whole domain -/
@@ -28,6 +38,9 @@ theorem discovery_table_complete (sh : Shape) (pl : Place) : (sh, pl) ∈ discov
   cases sh <;> cases pl <;> decide
 
 theorem assign_table_complete (sh : Shape) (pl : Place) : (sh, pl) ∈ assignTable.map (·.1) := by
+  cases sh <;> cases pl <;> decide
+
+theorem twice_table_complete (sh : Shape) (pl : Place) : (sh, pl) ∈ twiceTable.map (·.1) := by
   cases sh <;> cases pl <;> decide
 
 end LccModel.Generated.C14
